@@ -88,7 +88,18 @@ pub fn build_fv<T: PF>(v: &FV) -> T {
             2 => T::mul(x, y, 0),
             3 => T::neg(x, 0),
             4 => T::add(x, x, 0),
-            _ => T::sub(y, x, 0),
+            5 => T::sub(y, x, 0),
+            6 => {
+                let c = crate::gen::chain_small_mult(&crate::gen::int_of_src(s, &T::modulus()), &T::modulus());
+                if T::HAS_MUL_SMALL { T::mul_small(x, c, 0) } else { T::mul(x, T::from_u32(c), 0) }
+            }
+            7 => {
+                let c = crate::gen::chain_small_mult(&crate::gen::int_of_src(s, &T::modulus()), &T::modulus());
+                T::mulk(x, 2u32 << (c % 5), 0)
+            }
+            8 => T::square(x, 0),
+            9 => T::half(x),
+            _ => if T::HAS_MUL3 { T::mul3(x) } else { T::add(T::add(x, x, 0), x, 0) },
         };
     }
     x
